@@ -12,31 +12,7 @@ import signal
 import time
 import traceback
 
-CONFIGS = {
-    "default": {},
-    "jcl": "jcl",
-    "indent_only": "indent_only",
-    "upper": {"rule": {"group": {"case::keyword": {"case": "upper"}, "case": {"case": "upper"}}}},
-    "no_structure": {"rule": {"group": {"structure": {"disable": True}}}},
-    "endlabels": {"rule": {"loop_statement_007": {"disable": False}, "block_007": {"disable": False}, "generate_011": {"disable": False}, "case_generate_statement_500": {"disable": False}}},
-    "fix_warnings": {"rule": {"group": {"whitespace": {"severity": "Warning"}, "case": {"fixable": False}}}},
-    # every documented form of the white-space option with a zero bound (docs/configuring_whitespace_rules.rst)
-    "spaces_gt0": {"rule": {"global": {"number_of_spaces": ">0"}}},
-    "spaces_ge0": {"rule": {"global": {"number_of_spaces": ">=0"}}},
-    "spaces_0plus": {"rule": {"global": {"number_of_spaces": "0+"}}},
-    "spaces_lt1": {"rule": {"global": {"number_of_spaces": "<1"}}},
-    "spaces_0": {"rule": {"global": {"number_of_spaces": 0}}},
-    # documented values of the alignment options (docs/configuring_keyword_alignment_rules.rst), both ways
-    "align_a": {"rule": {"global": {"compact_alignment": "yes", "blank_line_ends_group": "no", "comment_line_ends_group": "no", "separate_generic_port_alignment": "no", "if_control_statements_ends_group": "yes", "case_control_statements_ends_group": "break_on_case_or_end_case", "generate_statements_ends_group": "yes", "loop_control_statements_ends_group": "yes"}}},
-    "align_b": {"rule": {"global": {"compact_alignment": "no", "blank_line_ends_group": "yes", "comment_line_ends_group": "yes", "separate_generic_port_alignment": "yes", "if_control_statements_ends_group": "no", "case_control_statements_ends_group": "yes", "generate_statements_ends_group": "no", "loop_control_statements_ends_group": "no"}}},
-    "smart_tabs": {"rule": {"global": {"indent_style": "smart_tabs"}}},
-    # skip lists (the configuration is the default one; the list is passed to rule_list.fix by the runner)
-    # the use-clause indent options with different values (docs/configuring_use_clause_indenting.rst)
-    "use_indent": {"indent": {"tokens": {"use_clause": {"keyword": {"token_after_library_clause": "+1", "token_if_no_matching_library_clause": "current"}}}}},
-    "skip1": {},
-    "caseonly": {},
-}
-SKIPS = {"skip1": [1], "caseonly": [1, 2, 3, 4, 5]}
+from bounded.configs import CONFIGS, SKIPS  # noqa: E402
 
 END_KEYWORDS = set("is entity architecture process function procedure package body component case if loop generate block record units protected context configuration for postponed end".split())
 
